@@ -3,6 +3,7 @@ import ast
 
 from ..alg import Rat
 from ..loader import shape_error, anchor_error
+from .. import orders
 from ..sx import Walker, State, Cond
 from ..util import body_nodocstring, names_stored, unparse
 from .c03 import cond_eval
@@ -394,12 +395,85 @@ def rule_S(ctx):
     c04.concat(Proxy(ctx, {'C04.S': 'C07.S'}))
 
 
+def rule_H(ctx):
+    """C07.H shortest_path of the repository's Network class interpreted on small multigraphs: None exactly when there is no walk; the
+    node list is a walk from source to target along permitted arcs whose weights sum to the shortest distance (Floyd-Warshall); the
+    geometry is the chain of the polylines of those edges, each oriented along the travel, junction vertices once; successive queries
+    on the same network object do not influence each other"""
+    from .. import netmodel
+    tier = getattr(ctx, 'tier', 'quick')
+    H = netmodel.Harness(ctx)
+    f = ctx.prog.func(netmodel.NET + '.Network.shortest_path')
+    INF = netmodel.INF
+    found = {}
+    n_graphs = n_queries = 0
+
+    def coords(track):
+        if not isinstance(track, orders.Obj) or '_Track__POINTS' not in track.fields:
+            return None
+        return [o.position.xyz() for o in track.fields['_Track__POINTS']]
+    for label, nodes, edges, layout in netmodel.families(tier):
+        n_graphs += 1
+        d = H.distances(nodes, edges)
+        desc = {'graph': label, 'edges (id, stored source, stored target, orientation, weight)': [list(e) for e in edges]}
+        net, pos, geom = H.build(nodes, edges, layout)
+        owned = {id(x) for x in H.owned}
+        pairs = [(s, t) for s in nodes for t in nodes if s != t]
+        for (s, t) in pairs + list(reversed(pairs)):
+            n_queries += 1
+            ok, res = H.guard(f, lambda: net.call('shortest_path', s, t))
+            want = d[(s, t)]
+            if not ok:
+                found.setdefault('fails', ('shortest_path does not fail', dict(desc, query=[s, t], exception=res)))
+                continue
+            if want == INF:
+                if res is not None:
+                    found.setdefault('unreachable', ('an unreachable target gives no path', dict(desc, query=[s, t], returned=repr(coords(res)))))
+                continue
+            if res is None:
+                found.setdefault('reachable', ('a reachable target gives a path', dict(desc, query=[s, t], **{'shortest distance': want})))
+                continue
+            path = res.fields.get('path') if isinstance(res, orders.Obj) else None
+            xy = coords(res)
+            routes = H.optimal_routes(nodes, edges, s, t, want)
+            okroute = None
+            for r in routes:
+                nl = [s] + [a[1] for a in r]
+                exp = [pos[s].xyz()]
+                for a in r:
+                    g = geom[a[3]] if a[4] > 0 else list(reversed(geom[a[3]]))
+                    exp.extend(g[1:])
+                if path == nl and xy == exp:
+                    okroute = r
+                    break
+            shared = [k_ for k_, o in enumerate(res.fields['_Track__POINTS']) if id(o) in owned or id(o.position) in owned] if xy is not None else []
+            if shared:
+                found.setdefault('sharing', ('the route is a track of its own: it holds none of the observation or coordinate objects of the network (editing the route '
+                                             'must not move an edge or a node)', dict(desc, query=[s, t], **{'vertices of the route that ARE objects of the network': shared})))
+            now = {eid: [o.position.xyz() for o in net.fields['EDGES'][eid].fields['geom'].fields['_Track__POINTS']] for eid in geom}
+            if now != {eid: list(g) for eid, g in geom.items()}:
+                found.setdefault('network-changed', ('a query leaves the edge geometries of the network as they were', dict(desc, query=[s, t], **{'geometries now': {str(k): v for k, v in now.items()}})))
+            if okroute is None:
+                exp_show = None
+                if routes:
+                    r = routes[0]
+                    exp_show = {'nodes': [s] + [a[1] for a in r], 'edges': [a[3] for a in r]}
+                found.setdefault('route', ('the returned route is an optimal walk: its node list runs from source to target along permitted edges whose weights sum to the '
+                                           'shortest distance, and its geometry chains the polylines of those edges in travel direction, junction vertices once',
+                                           dict(desc, query=[s, t], **{'shortest distance': want, 'node list returned': path, 'geometry returned': xy,
+                                                                       'an optimal route': exp_show, 'node positions': {str(k): list(v.xyz()) for k, v in pos.items()}})))
+    for key, (descr, wit) in sorted(found.items()):
+        ctx.violation('C07.H', f, descr, wit, node=f.node, key=key)
+    if not found:
+        ctx.ok('C07.H', f, 'shortest_path: None iff unreachable, otherwise an optimal walk with correctly oriented, continuous geometry (%d multigraphs, %d queries in two orders)' % (n_graphs, n_queries), node=f.node)
+    ctx.extra['C07.H graphs'] = n_graphs
+    ctx.extra['C07.H queries'] = n_queries
+
+
 RULES = [
-    ('C07.S', rule_S, 'quick'),
-    ('C07.F', rule_F, 'quick'),
-    ('C07.N', rule_N, 'quick'),
-    ('C07.P', rule_P, 'quick'),
-    ('C07.G', rule_G, 'quick'),
-    ('C07.U', rule_U, 'quick'),
+    ('C07.H', rule_H, 'quick'),
 ]
-MIN_OBLIGATIONS = 12
+# rule_S / rule_F / rule_N / rule_P / rule_G / rule_U (statement-level readings of the forward and backward passes) are no longer run:
+# C07.H decides the same clauses on the behaviour of shortest_path and does not depend on how the passes are written (C07-R5, C07-R6
+# made them report violations on behaviour-preserving rewrites)
+MIN_OBLIGATIONS = 1
